@@ -26,7 +26,7 @@ LEVEL_NOTE = ('Trusted: kv/fakekube.py (merge/JSON-patch semantics, watch orderi
               'virtual clocks. Echo lag is kept below the consistency timeout (beyond it the statement itself excludes). Handlers with retries=/timeout= '
               'limits are left to C11.')
 RULE = ("cases = closed-loop scenarios: 1-4 handlers per cause (+sub-handlers) with outcome scripts over {ok,temporary(d),permanent,arbitrary}, "
-        "lifecycle, storage configuration, status subresource on/off, foreign status/spec edits mid-cycle, graceful restarts and kills; directed "
+        "lifecycle, storage configuration, status subresource on/off, foreign status/spec edits mid-cycle, graceful restarts and kills, optional daemon whose exit takes several re-checks (deletions spanning passes); directed "
         "scenarios are re-run once per (write request index, before/after) kill point. non-trivial = multi-step cycle (>=3 operator PATCHes on one "
         "object) or a restart/kill mid-cycle; distinct = hash of the sequence of (handler id, outcome, incarnation ordinal) and kill position")
 ASSUMPTIONS = [
@@ -35,7 +35,7 @@ ASSUMPTIONS = [
     "a kill is emulated by making the client dead (no later request has an effect) and cancelling the operator task",
 ]
 GATES = {'multi_step_cycles': 1, 'retries_seen': 1, 'sub_retries_seen': 1, 'restart_mid_cycle': 1,
-         'kill_before_applied': 1, 'kill_after_applied': 1, 'calls_checked': 100}
+         'kill_before_applied': 1, 'kill_after_applied': 1, 'calls_checked': 100, 'deletions_held_by_daemons': 3}
 
 SCRIPT_ATOMS = [['ok'], ['ok'], ['ok', {'r': 1}], ['temp', 0.5], ['temp', 2], ['perm'], ['arb'], ['slow', 0.3, ['ok']], ['slow', 1.5, ['temp', 1]]]
 
@@ -225,6 +225,14 @@ def run_case(case: dict[str, Any]) -> dict[str, Any]:
                 cov['kill_before_applied'] = cov.get('kill_before_applied', 0) + 1
             if r.fault and 'kill_after' in r.fault and r.status == 200:
                 cov['kill_after_applied'] = cov.get('kill_after_applied', 0) + 1
+        # deletions that went on over several passes because a daemon was still exiting, with deletion handlers involved
+        for uid in ix.uids:
+            marks = [v['g'] for v in w.history[uid] if v['body']['metadata'].get('deletionTimestamp')]
+            if marks and any(c['uid'] == uid and c['kind'] == 'delete' for c in ix.calls):
+                ends = [r for r in ix.rets.values() if r['uid'] == uid and r['kind'] == 'daemon' and r['g'] > marks[0]]
+                dones = [r['g'] for r in ix.rets.values() if r['uid'] == uid and r['kind'] == 'delete' and ix.is_final(r)]
+                if ends and dones and max(dones) < max(r['g'] for r in ends):
+                    cov['deletions_held_by_daemons'] = cov.get('deletions_held_by_daemons', 0) + 1
         if w.quiesced is False:
             viol.append({'mech': 'no-quiescence', 'msg': f'[{tag}] handling did not terminate before the horizon', 'witness': None})
         order = ';'.join(f"{c['h']}:{ix.rets.get(c['seq'], {}).get('outcome')}:{incs.index(c['inc'])}" for c in changing)
